@@ -27,7 +27,7 @@ from pvm.gen import mdg as gm
 from pvm.ref import c23_gridcheck as gc
 
 PROP = "C23"
-N = {"quick": 120, "thorough": 10000}
+N = {"quick": 120, "thorough": 6000}
 WORKERS = {"quick": 4, "thorough": 16}
 RULE = ("one operation per case: refine_grid_1d (1-D tensor grids with random spacing, rigidly "
         "embedded, optionally with permuted node/cell numbering, and split 1-D fracture grids "
